@@ -7,9 +7,9 @@
  "replace_calls": {"funcinst": "rec_funcinst", "mkintconst": "rec_mkintconst"},
  "loop_contracts": {"zero": [{"loop_id": "0",
      "assigns": "offset, a, tmp, g, g_const",
-     "invariants": "store[1] == k_storeb && store[2] == k_storeh && store[4] == k_storew && store[8] == k_storel && z.kind == k_intconst && z.u.i == 0 && a >= 1 && a <= align && (a & (a - 1)) == 0 && (offset & ((unsigned long long)a - 1)) == 0 && g.pos == offset && offset >= g_off0 && (g_off0 >= end ==> (offset == g_off0 && g.n == 0)) && (g_off0 < end ==> offset <= ((end + (unsigned long long)align - 1) & ~((unsigned long long)align - 1))) && g.ok_op && g.ok_add && g.ok_val && g.ok_dst && g.ok_contig && g.ok_natural && g.ok_size && (g.bcov == (g_off0 <= g_b && g_b < offset))",
+     "invariants": "store[1] == k_storeb && store[2] == k_storeh && store[4] == k_storew && store[8] == k_storel && a >= 1 && a <= align && (a & (a - 1)) == 0 && (offset & ((unsigned long long)a - 1)) == 0 && g.pos == offset && offset >= g_off0 && (g_off0 >= end ==> (offset == g_off0 && g.n == 0)) && (g_off0 < end ==> offset <= ((end + (unsigned long long)align - 1) & ~((unsigned long long)align - 1))) && g.ok_op && g.ok_add && g.ok_val && (g.vptr == 0 || g.vptr == &z) && g.ok_dst && g.ok_contig && g.ok_natural && g.ok_size && (g.bcov == (g_off0 <= g_b && g_b < offset))",
      "decreases": "((end + (unsigned long long)align - 1) & ~((unsigned long long)align - 1)) - offset, align - a",
-     "symbol_map": "offset,zero::offset;end,zero::end;align,zero::align;a,zero::1::a;tmp,zero::1::tmp;store,zero::1::store;z,zero::1::z;k_storeb,k_storeb;k_storeh,k_storeh;k_storew,k_storew;k_storel,k_storel;k_intconst,k_intconst;g,g;g_const,g_const;g_off0,g_off0;g_b,g_b"}]},
+     "symbol_map": "offset,zero::offset;end,zero::end;align,zero::align;a,zero::1::a;tmp,zero::1::tmp;store,zero::1::store;z,zero::1::z;k_storeb,k_storeb;k_storeh,k_storeh;k_storew,k_storew;k_storel,k_storel;g,g;g_const,g_const;g_off0,g_off0;g_b,g_b"}]},
  "loops_expected": {"zero": 1},
  "cflags": ["-DZ_ALIGN_MIN=1", "-DZ_ALIGN_MAX=8"],
  "kind": "proof",
